@@ -1,11 +1,14 @@
-(* C05 -- passthrough requests have the effect and result of the same host system call (partial:
-   Model/HostFs.v is a validated, not verified, description of Linux).  Only statements. *)
+(* C05 -- passthrough requests have the effect and result of the same host system call.
+   PARTIAL: Model/HostFs.v is a validated, not verified, description of Linux; the tree-refinement
+   theorem covers the single-call operations (see notes/C05.md for the list of what is not covered).
+   Only statements, closed by [exact]. *)
 From Coq Require Import List NArith Bool.
-From FB Require Import Model.Names Model.HostFs Model.Passthrough Proofs.PassthroughCreds.
+From FB Require Import Model.Names Model.HostFs Model.Passthrough Proofs.PassthroughCreds Proofs.PassthroughRefine.
 Import ListNotations.
 Local Open Scope N_scope.
 
-(* the serving thread's euid/egid/CAP_FSETID after every request, on every path, are root's again *)
+(* the serving thread's euid/egid/CAP_FSETID after every request, on every path (including every error
+   path) and in every configuration, are root's again *)
 Theorem C05_creds_restored : forall cf s q rp io ho s',
   p_creds s = root_creds -> pstep cf s q = (rp, io, ho, s') -> p_creds s' = root_creds.
 Proof. exact pstep_creds_restored. Qed.
@@ -13,5 +16,67 @@ Theorem C05_creds_restored_history : forall cf qs r out rf, p_creds (r_p r) = ro
   p_creds (r_p rf) = root_creds /\ Forall (fun o => snd o = root_creds) out.
 Proof. exact run_creds_restored. Qed.
 
+(* inside a set_creds scope entered as root the calls run with exactly the caller's ids (and without
+   capabilities unless the caller is root) *)
+Theorem C05_caller_identity : forall A uid gid s (body : pstate -> res A * pstate),
+  p_creds s = root_creds ->
+  exists c r0 s1, body (with_creds_of s (caller_creds uid gid)) = (r0, s1) /\
+                  with_creds uid gid s body = (r0, with_creds_of s1 c).
+Proof. exact with_creds_from_root. Qed.
+
+(* ownership: a node created by mkdirat/mknodat/symlinkat/openat(O_CREAT) belongs to the calling
+   credentials: uid = the caller's, gid = the caller's unless the directory is setgid.
+   (C05_owner_partial: stated at the level of the creating host call + C05_caller_identity; the
+   composition through do_lookup into the Entry returned to the client is checked by the harness only) *)
+Theorem C05_owner_partial : forall c h d dv n k mode i h', i <> d ->
+  create_node c h d dv n k mode = (i, h') ->
+  exists v, get h' i = Some v /\ i_uid v = euid c /\ i_gid v = new_gid c dv /\ i_kind v = k.
+Proof. exact create_node_owner. Qed.
+Theorem C05_owner_ids : forall uid gid dv, uid <> 0 ->
+  euid (caller_creds uid gid) = uid /\
+  new_gid (caller_creds uid gid) dv = (if has (i_mode dv) S_ISGID then i_gid dv else gid).
+Proof. exact owner_of_caller. Qed.
+
+(* flags *)
+Theorem C05_flags_writeback_off : forall cf f, c_writeback cf = false -> get_writeback_open_flags cf f = f.
+Proof. exact writeback_flags_off. Qed.
+Theorem C05_flags_writeback_no_append : forall cf f, c_writeback cf = true ->
+  has (get_writeback_open_flags cf f) O_APPEND = false.
+Proof. exact writeback_flags_no_append. Qed.
+Theorem C05_flags_writeback_access : forall cf f, c_writeback cf = true -> (N.land f O_ACCMODE =? O_WRONLY) = true ->
+  get_writeback_open_flags cf f =
+  (if has f O_APPEND then clear (N.lor (clear f O_ACCMODE) O_RDWR) O_APPEND else N.lor (clear f O_ACCMODE) O_RDWR).
+Proof. exact writeback_flags_access. Qed.
+Theorem C05_flags_check_fd : forall s hid hd flags hd' s', check_fd_flags s hid hd flags = (hd', s') ->
+  hd_flags hd' = flags /\ hd_host hd' = hd_host hd /\ hd_acc hd' = hd_acc hd /\
+  (hd_flags hd <> flags -> hd_append hd' = has flags O_APPEND) /\ p_host s' = p_host s.
+Proof. exact check_fd_flags_sets. Qed.
+
+Theorem C05_special_never_opened : forall cf s inode flags d, assoc inode (p_inodes s) = Some d ->
+  is_safe_inode (id_mode d) = false -> open_inode cf s inode flags = (Err EBADF, s).
+Proof. exact special_never_opened. Qed.
+
+(* refinement of the exported tree by the direct call: the FULL statement (all configurations) is refuted
+   by the inode_file_handles defect; outside that class it holds for the covered operations *)
+Theorem C05_refuted : ~ C05_full.
+Proof. exact full_refuted. Qed.
+Theorem C05_tree_partial : forall cf s q, p_creds s = root_creds -> ~ Known cf q -> C05_tree_statement cf s q.
+Proof. exact tree_partial. Qed.
+
+(* non-vacuity *)
+Example C05_nonvacuous : Known wit_cfg wit_req /\ direct_host wit_cfg (init_state wit_host 10) wit_req <> None /\
+  p_creds (init_state wit_host 10) = root_creds.
+Proof. split; [exact wit_known|]. split; [discriminate | reflexivity]. Qed.
+
 Print Assumptions C05_creds_restored.
 Print Assumptions C05_creds_restored_history.
+Print Assumptions C05_caller_identity.
+Print Assumptions C05_owner_partial.
+Print Assumptions C05_owner_ids.
+Print Assumptions C05_flags_writeback_off.
+Print Assumptions C05_flags_writeback_no_append.
+Print Assumptions C05_flags_writeback_access.
+Print Assumptions C05_flags_check_fd.
+Print Assumptions C05_special_never_opened.
+Print Assumptions C05_refuted.
+Print Assumptions C05_tree_partial.
